@@ -35,7 +35,7 @@ def gap_rows(rng, recs, density):
 
 def render_fasta(rng, rows, width=None):
     width = width or rng.choice([1, 7, 59, 60, 61, 80, 500])
-    out = []
+    out = [""] * rng.choice([0, 0, 0, 1, 4, 5, 6, 9])        # blank lines before the first record
     for n, r in rows:
         if rng.random() < 0.3:
             out.append("")
@@ -44,7 +44,9 @@ def render_fasta(rng, rows, width=None):
             out.append(r[i:i + width] + (" " * rng.randint(0, 3) if rng.random() < 0.2 else ""))
             if rng.random() < 0.05:
                 out.append("")
-    return "\n".join(out) + "\n"
+    while out and out[-1] == "" and rng.random() < 0.5:
+        out.pop()
+    return "\n".join(out) + ("\n" if rng.random() < 0.7 else "")      # the last line need not end in a newline
 
 
 def render_clustal(rng, rows, width=None):
@@ -58,6 +60,10 @@ def render_clustal(rng, rows, width=None):
         out.append("")
         if rng.random() < 0.3:
             out.append("")
+    if rng.random() < 0.25:
+        while out and out[-1] == "":
+            out.pop()
+        return "\n".join(out)                                           # file ends with the last sequence line, no newline
     return "\n".join(out) + "\n"
 
 
@@ -76,6 +82,10 @@ def render_msf(rng, rows, width=None):
                 chunk = " ".join(chunk[j:j + 10] for j in range(0, len(chunk), 10))
             out.append(n.ljust(pad) + chunk)
         out.append("")
+    if rng.random() < 0.25:
+        while out and out[-1] == "":
+            out.pop()
+        return "\n".join(out)
     return "\n".join(out) + "\n"
 
 
